@@ -615,7 +615,7 @@ def check_qp(ctx, d, exe, strings):
     # decoder: hostile text
     texts = [b"a=", b"a=4", b"a=41", b"=", b"==", b"=\n", b"=\r\n", b"a=\nb", b"a=\r\nb", b"a=\rb", b"a =\r\n b", b"a ", b"a \t", b"a \nb", b"a \r\nb", b"a \rb", b"a b", b"a_b", b"=zz", b"=4z", b"=a1", b"=A1x",
              b" ", b"\t\t", b"x=\r", b"x=3D=", b"=3D=3D", b"=\n=\n", b"  \r"]
-    for e in encs[:200 if not ctx.thorough else 2000]:
+    for e in encs[:150 if not ctx.thorough else 2000]:
         texts.append(mutate(rng, e[:rng.choice([6, 20, 80, len(e)])], b"=0123456789ABCDEFabcdef \t\r\n_?"))
     exprs = ['(xh (quoted-printable-decode-bytevector (hx "%s")))' % hexs(t) for t in texts]
     reqs = ["qpdec " + hexs(t) for t in texts]
@@ -785,10 +785,10 @@ def check_accessors(ctx, d, exe, table, dasan=None):
         oob_vals = [hi + 1, lo - 1, 1 << 70, -(1 << 70) - 5]
         fvals = FLOAT_VALUES + [struct.unpack("<d", struct.pack("<Q", rng.getrandbits(64)))[0] for _ in range(6 if not ctx.thorough else 60)]
         fvals = [x for x in fvals if not (math.isnan(x) and x not in FLOAT_VALUES[:11])]
-        for ln in sorted(set([0, 1, w - 1, w, w + 1, w + 3, 2 * w + 1])):
+        for ln in sorted(set([0, 1, w - 1, w, w + 1, 2 * w + 1] + ([w + 3] if ctx.thorough else []))):      # round 4: w+3 moved to the thorough tier (quick-tier budget)
             if ln < 0:
                 continue
-            for k in list(range(-1, ln + 2)) + [1 << 31, (1 << 32) + 0, -(1 << 40), 1 << 62]:
+            for k in list(range(-1, ln + 2)) + ([1 << 31, (1 << 32) + 0, -(1 << 40), 1 << 62] if ctx.thorough else [rng.choice([1 << 31, (1 << 32) + 0]), rng.choice([-(1 << 40), 1 << 62])]):
                 for big in ((False, True) if endian else (False,)):
                     if isfloat and not isset:
                         # bytes that are interesting as IEEE patterns: specials in the window when there is one
@@ -1194,7 +1194,7 @@ def check_minifloats(ctx, d, exe):
         return exp
     # representable values must come back unchanged (spec, not model): halves all; quarters up to NaN collapse and -0 -> +0
     through("f16", ih, "every-pattern", list(ih))
-    through("f16", half[:20000] if not ctx.thorough else half, "boundaries")
+    through("f16", half[:12000] if not ctx.thorough else half, "boundaries")
     through("f8", iq, "every-pattern", [iq[127 if (q & 127) > 124 else 0 if q == 128 else q] for q in range(256)])
     through("f8", quarter[:6000] if not ctx.thorough else quarter, "boundaries")
     # literals: 64 values per literal
@@ -1553,10 +1553,14 @@ def hostile_json(rng, texts, thorough):
            b'"\\ud83d\\ude00"', b'"\\uD83D\\uDE00"', b'"\\ud800\\', b'"\\ud800\\u', b'"\\ud800\\udc0', b'"\\u12', b'"\\u12G4"', b'"\\', b'"', b'"abc', b'"\\x"', b'"\\/"',
            b'', b' ', b'[', b']', b'{', b'}', b'[,]', b'[1,]', b'[1,,2]', b'[1 2]', b'{"a"}', b'{"a":}', b'{"a":1,}', b'{1:2}', b'{[1]:2}', b'{"a" : 1 , "b":[ ]}',
            b'nul', b'nxyz', b'truE', b'TRUE', b'fals', b'N', b'-', b'+', b'+5', b'-0', b'00012', b'1.5', b'1e5', b'1.5e3', b'1E5', b'-1.e', b'1e', b'1e+', b'.5',
+           b'[1E+10]', b'[1.5e3,2]', b'[-2.718281828E+300,1E-05]', b'{"a":1.5E+3}', b'[1.5E]', b'[1.e5]', b'[1.5e+]', b'[1.5.5]', b'[1e5e5]', b'[1E5E5]', b'[1e5.5]', b'[1.5e-3x]', b'1.5E+300x', b'[1ee5]', b'[1e+-5]', b'[-E5]',
            b'4611686018427387903', b'4611686018427387904', b'-4611686018427387904', b'9007199254740993', b'18446744073709551616', b'123456789012345678901234567890',
            b'1' + b'0' * 400, b'1e999999', b'-1e-999999', b'0.' + b'1' * 500, b'"' + b'a' * 127 + b'"', b'"' + b'a' * 124 + b'\\u00e9' + b'"', b'"' + b'\\ud83d\\ude00' * 100 + b'"',
            b'"' + b'x' * 5000 + b'"', b'"\xff\xfe\x80"', b'"\xf0\x9f"', b'\xef\xbb\xbf1', b'[' * 999 + b']' * 999, b'[' * 1000 + b']' * 1000, b'[' * 1001 + b']' * 1001,
-           b'[' * 100000, b'{"a":' * 100000, b'[' * 100000 + b']' * 100000, b'[{"k":' * 50000, b' ' * 100000 + b'1', b'\t\n\r\x0b\x0c [1]', b'[1]garbage', b'"a\x00b"', b'"\\u0000"']
+           b'[' * 100000, b'[' * 100000 + b']' * 100000, b' ' * 100000 + b'1',
+           # object nesting far beyond the C stack: the extracted model re-measures the remaining input at each of the 1000 keys it reads before the depth limit (7-27 s for these two),
+           # so the quick tier keeps one shorter text (50 000 levels, still 1.5 x the depth that overflowed the C stack before C19-json-read-depth-limit)
+           *([b'{"a":' * 100000, b'[{"k":' * 50000] if thorough else [b'[{"k":' * 25000]), b'\t\n\r\x0b\x0c [1]', b'[1]garbage', b'"a\x00b"', b'"\\u0000"']
     for t in texts:
         for _ in range(2 if not thorough else 4):
             out.append(mutate(rng, t, b'[]{}",:\\u0123456789dDeEaAfFntr -+.'))
@@ -1565,10 +1569,10 @@ def hostile_json(rng, texts, thorough):
 
 def check_json(ctx, d, exe, dasan):
     rng = ctx.rng
-    n = 500 if not ctx.thorough else 20000
-    vals = ["n", "t", "f", ("a", []), ("o", []), ("s", []), ("s", ESC_CHARS), ("a", [("s", [c]) for c in ESC_CHARS]), ("a", [("i", z) for z in INTS] + [("i", -z) for z in INTS]),
+    n = 300 if not ctx.thorough else 20000
+    vals = ["n", "t", "f", ("a", []), ("o", []), ("s", []), ("s", ESC_CHARS), ("a", [("s", [c]) for c in ESC_CHARS]), ("a", [("i", z) for z in INTS] + [("i", -z) for z in INTS]), ("i", -MAXFIX - 1), ("a", [("i", -MAXFIX - 1), ("i", -MAXFIX)]),
             ("o", [([c], ("s", [c])) for c in ESC_CHARS]), ("s", list(range(0, 0x80))), ("s", list(range(0x80, 0x100))), ("s", [0xd7ff, 0xe000, 0x10000, 0x10ffff] * 40)]
-    for c in range(0, 0x110000, 0x3ff if not ctx.thorough else 0x3d):      # every surrogate-pair high unit / many low units
+    for c in range(0, 0x110000, 0x5ff if not ctx.thorough else 0x3d):      # every surrogate-pair high unit / many low units
         if not (0xd800 <= c < 0xe000):
             vals.append(("s", [c, (c + 0x1234) % 0xd800]))
     for i in range(n):
@@ -1579,9 +1583,13 @@ def check_json(ctx, d, exe, dasan):
     exprs = ['(let ((t (json->string %s))) (list (xh (string->utf8 t)) (string->symbol (string-append "V" (jshow (string->json t))))))' % jscheme(v) for v in vals]
     wq = ["jwrite " + jwire(v) for v in vals]
     eq = ["jexpect " + jwire(v) for v in vals]
+    import time
+    tj = [time.time()]
     mw = run_model(exe, wq)
     me = run_model(exe, eq)
+    tj.append(time.time())
     io = scm.run_cases(d, exprs, prelude_extra=PRELUDE, imports=IMPORTS, chunk=300)
+    tj.append(time.time())
     texts = []
     import json as pj
     for v, w, e, i, ex in zip(vals, mw, me, io, exprs):
@@ -1618,14 +1626,16 @@ def check_json(ctx, d, exe, dasan):
                           input=jwire(v)[:2000], expected=want[:2000], observed=(i or "")[:2000], verdict=verdict, replay=rp)
     ctx.sample(dict(kind="json-roundtrip", value=jwire(vals[6])[:300], model_text=mw[6][:300], impl=io[6][:300]))
     # ---- reader on hostile text: value or error, same class as the model, under default and asan builds
-    host = hostile_json(rng, texts[:300 if not ctx.thorough else 3000], ctx.thorough)
+    host = hostile_json(rng, texts[:200 if not ctx.thorough else 3000], ctx.thorough)
     reqs = ["jread " + hexs(t) for t in host]
     mo = run_model(exe, reqs)
+    tj.append(time.time())
     exprs = ['(jread-hex "%s")' % hexs(t) for t in host]
     for label, dd in (("default", d), ("asan", dasan)):
         if dd is None:
             continue
         io = scm.run_cases(dd, exprs, prelude_extra=PRELUDE, imports=IMPORTS, chunk=200, timeout=300)
+        tj.append(time.time())
         for t, m, i in zip(host, mo, io):
             ctx.count(1, key=("jread", label, t), nontrivial=True)
             rp = "python3 -c 'import sys; sys.stdout.buffer.write(bytes.fromhex(\"%s\"))' > /tmp/c19.json; echo '(import (scheme base) (scheme write) (scheme file) (chibi json)) (write (call-with-input-file \"/tmp/c19.json\" json-read))' | chibi-scheme /dev/stdin   # build variant: %s" % (t[:3000].hex(), label)
@@ -1641,7 +1651,294 @@ def check_json(ctx, d, exe, dasan):
             else:
                 if i.strip("|") != "V" + m[2:]:
                     ctx.violation("json:read-value", input=hexs(t[:400]), expected=m[:300], observed=i[:300], build=label, replay=rp)
+    ctx.note("wall seconds inside json: model write+expect, implementation round trip, model on hostile, hostile default, hostile asan: " + ", ".join("%.1f" % (b - a) for a, b in zip(tj, tj[1:])))
     ctx.sample(dict(kind="json-hostile", input=hexs(host[2]), model=mo[2], impl=io[2]))
+
+
+# ------------------------------------------------------------------------------------------ JSON numbers (round 4)
+# json_write_flonum (json.c) formats with snprintf("%.*G", 10, x) into a fixed buffer; bignums go through the same path.
+# No specification of %G is needed.  For a finite x the written text must
+#   (a) be a number of the JSON grammar,
+#   (b) denote, as an exact decimal T, the value x rounded to 10 significant digits:  |T - x| <= half a unit in the 10th significant
+#       digit of x  (exact rationals: num_accept below; the same function exists in the Coq model, Json.num_accept, and the extracted
+#       one is run on every case: request `numok`),
+#   (c) be read back by string->number (Scheme) and by the JSON reader, completely, as T (up to the few-ulp error of the two naive
+#       decimal->binary conversions; both must agree with each other within 2 ulps).
+JNUM_PRELUDE = r"""
+(define (jnum-bits x) (let ((bv (make-bytevector 8 0))) (bytevector-ieee-double-native-set! bv 0 x) (bvhex bv)))
+(define (jnum-show v)
+  (cond ((not (number? v)) "N")
+        ((and (exact? v) (integer? v)) (string-append "i" (number->string v)))
+        ((exact? v) "q")
+        ((real? v) (string-append "d" (jnum-bits v)))
+        (else "c")))
+(define (jnum-clean t)    ; the text as a token (a writer that emits a blank or a separator is reported through the grammar test)
+  (list->string (map (lambda (c) (if (memv c '(#\space #\; #\newline #\|)) #\_ c)) (string->list t))))
+(define (jnum-one x)
+  (guard (e (#t "WERR"))
+    (let* ((t (json->string x))
+           (sn (string->number t))
+           (p (open-input-string t))
+           (jr (guard (e (#t 'err)) (json-read p)))
+           (left (let lp ((n 0)) (if (eof-object? (read-char p)) n (lp (+ n 1)))))
+           (wa (json->string (vector x x)))                                            ; the writer's recursion: must be [t,t]
+           (ja (if (equal? wa (string-append "[" t "," t "]")) (guard (e (#t 'err)) (string->json wa)) 'werr)))   ; the same text followed by , and ]
+      (string-append (if (equal? t "") "_" (jnum-clean t)) " " (if sn (jnum-show sn) "F") " " (if (eq? jr 'err) "E" (jnum-show jr)) " " (number->string left) " "
+                     (if (and (vector? ja) (= (vector-length ja) 2)) (string-append (jnum-show (vector-ref ja 0)) "," (jnum-show (vector-ref ja 1))) "E")))))
+(define (jnum-list ls) (join-semi (map jnum-one ls)))
+(define (jnum-doubles in)
+  (let lp ((i (- (quotient (bytevector-length in) 8) 1)) (acc '()))
+    (if (< i 0) (jnum-list acc) (lp (- i 1) (cons (bytevector-ieee-double-native-ref in (* 8 i)) acc)))))
+"""
+JSON_NUMBER_RE = None
+DBL_MAX = (2 ** 53 - 1) * 2 ** 971
+
+
+def dec_exponent(x):
+    """p with 10^p <= |x| < 10^(p+1), exactly (x a non-zero Fraction)"""
+    a = abs(x)
+    p = len(str(a.numerator)) - len(str(a.denominator))
+    while Fraction(10) ** p > a:
+        p -= 1
+    while Fraction(10) ** (p + 1) <= a:
+        p += 1
+    return p
+
+
+def num_accept(x, T, slack=0):
+    """(b): T is x rounded to 10 significant digits (either neighbour on a tie); slack = relative error already made before formatting (bignum -> double)"""
+    if x == 0:
+        return T == 0
+    p = dec_exponent(x)
+    return 2 * abs(T - x) <= Fraction(10) ** (p - 9) + 2 * abs(x) * slack
+
+
+def text_value(t):
+    """exact value of a JSON number text, or None when the text is not one"""
+    global JSON_NUMBER_RE
+    import re
+    if JSON_NUMBER_RE is None:
+        JSON_NUMBER_RE = re.compile(r"-?(0|[1-9][0-9]*)(\.[0-9]+)?([eE][+-]?[0-9]+)?\Z")
+    if not JSON_NUMBER_RE.match(t):
+        return None
+    m = re.match(r"(-?)([0-9]+)(?:\.([0-9]+))?(?:[eE]([+-]?[0-9]+))?\Z", t)
+    sg, ip, fp, ex = m.groups()
+    fp = fp or ""
+    v = Fraction(int(ip + fp)) * Fraction(10) ** (int(ex or 0) - len(fp))
+    return -v if sg else v
+
+
+def read_close(tok, T, intlike):
+    """is the number a reader returned (token of jnum-show) the text's value T?  flonums: within 4 ulps / 8 subnormal steps (both readers multiply by pow(10, e))"""
+    if tok.startswith("i"):
+        return Fraction(int(tok[1:])) == T
+    if not tok.startswith("d"):
+        return False
+    b = struct.unpack("<Q", bytes.fromhex(tok[1:]))[0]
+    if is_nan_bits(b):
+        return False
+    v = bitsd(b)
+    if v in (float("inf"), float("-inf")):
+        return abs(T) >= DBL_MAX * (1 - Fraction(1, 2 ** 50)) and (v > 0) == (T > 0)
+    return abs(Fraction(v) - T) <= max(abs(T) * Fraction(1, 2 ** 50), Fraction(8, 2 ** 1074))
+
+
+def tok_float(tok):
+    if tok.startswith("i"):
+        return float(int(tok[1:])) if abs(int(tok[1:])) < 2 ** 1023 else None
+    if tok.startswith("d"):
+        return bitsd(struct.unpack("<Q", bytes.fromhex(tok[1:]))[0])
+    return None
+
+
+def jnum_doubles(rng, thorough):
+    """bit patterns aimed at the LENGTH of the text: sign x significant digits 1..10 and beyond x exponent width (none, 1, 2, 3 digits, negative) and the switches of %G
+       (exponent form below 1e-4 and from 1e10), carries into the next decade, ties in the 10th digit, integers as flonums, subnormals, the largest / smallest doubles"""
+    out = []
+    def add(x):
+        try:
+            f = float(x)
+        except OverflowError:
+            return
+        if f != f or f in (float("inf"), float("-inf")):
+            return
+        out.append(dbits(f)); out.append(dbits(-f))
+    exps = [-324, -323, -322, -320, -310, -309, -308, -307, -306, -200, -101, -100, -99, -98, -50, -11, -10, -9, -8, -7, -6, -5, -4, -3, -2, -1, 0, 1, 2, 3, 5, 8, 9, 10, 11, 12,
+            15, 16, 17, 18, 19, 20, 21, 22, 23, 50, 98, 99, 100, 101, 200, 299, 300, 306, 307, 308]
+    fixed = ["1", "9", "15", "25", "125", "2718281828", "1234567891", "9999999999", "99999999995", "99999999994", "99999999996", "10000000005", "10000000015", "1000000001", "10000000001",
+             "12345678905", "12345678915", "12345678925", "314159265358979", "17976931348623157", "22250738585072014", "49406564584124654", "1797693134", "1797693135", "17976931345"]
+    for e in exps:
+        for m in fixed:
+            add(Fraction(int(m)) * Fraction(10) ** (e - len(m) + 1))
+        for k in (1, 2, 3, 4, 5, 6, 7, 8, 9, 10, 10, 10, 11, 12, 15, 17):
+            if not thorough and rng.random() < 0.5 and k not in (1, 9, 10, 11):
+                continue
+            ds = [rng.randrange(1, 10)] + [rng.randrange(10) for _ in range(k - 2)] + ([rng.randrange(1, 10)] if k > 1 else [])
+            add(Fraction(int("".join(map(str, ds)))) * Fraction(10) ** (e - k + 1))
+    for k in range(0, 24):
+        for dlt in (0, 1, -1, 5, -5):
+            add(10 ** k + dlt)
+        add(Fraction(10 ** k) + Fraction(1, 2)); add(Fraction(10 ** k) - Fraction(1, 2)); add(Fraction(1, 10 ** k)); add(Fraction(1, 10 ** k) * (1 - Fraction(1, 10 ** 11))); add(Fraction(5, 10 ** (k + 11)) + Fraction(1, 10 ** k))
+    for k in list(range(0, 70)) + list(range(70, 1024, 13 if not thorough else 1)) + [1023]:
+        add(2 ** k); add(Fraction(1, 2 ** k))
+    for k in (53, 62, 63, 64):
+        add(2 ** k + 2 ** (k - 52)); add(2 ** k - 2 ** (k - 53))
+    for b in [0, 1, 2, 3, 10, 0x000FFFFFFFFFFFFF, 0x0010000000000000, 0x0010000000000001, 0x000FFFFFFFFFFFFE, 0x7FEFFFFFFFFFFFFF, 0x7FEFFFFFFFFFFFFE, 0x7FE0000000000000, dbits(0.1), dbits(1.0 / 3.0), dbits(2.0 / 3.0),
+              dbits(0.0001), dbits(0.0001) - 1, dbits(0.0001) + 1, dbits(0.000099999999995), dbits(0.00012345678901), dbits(9999999999.4), dbits(9999999999.5), dbits(1e10), dbits(1e10) + 1, dbits(1e10) - 1,
+              dbits(1e100), dbits(1e100) - 1, dbits(1e100) + 1, dbits(1e-99), dbits(1e-99) - 1, dbits(1e-100), dbits(1e-100) + 1, dbits(123456.789), dbits(1.5), dbits(1e3)]:
+        out.append(b); out.append(b | SIGN)
+    for _ in range(600 if not thorough else 200000):
+        r = rng.random()
+        if r < 0.5:
+            b = rng.getrandbits(64)
+        elif r < 0.75:      # all ten digits in use, 3-digit exponent
+            b = (rng.getrandbits(1) << 63) | (rng.choice([rng.randrange(1, 690), rng.randrange(1356, 2047)]) << 52) | rng.getrandbits(52)
+        else:               # few mantissa bits (short texts), subnormals
+            b = (rng.getrandbits(1) << 63) | (rng.choice([0, rng.randrange(0, 2047)]) << 52) | (rng.getrandbits(rng.randrange(1, 20)) << rng.randrange(0, 33))
+        if (b >> 52) & 2047 != 2047:
+            out.append(b)
+    seen, res = set(), []
+    for b in out:
+        if b not in seen:
+            seen.add(b); res.append(b)
+    return res
+
+
+JNUM_BIG = [1 << 62, -(1 << 62) - 1, (1 << 62) + 1, 1 << 63, (1 << 64) - 1, 1 << 64, 10 ** 19, 10 ** 20 - 1, 99999999995 * 10 ** 9, 12345678905 * 10 ** 9, -12345678901234567890123, 10 ** 30 + 1, 10 ** 99, -(10 ** 100),
+            -2718281828 * 10 ** 291 - 1, -(10 ** 100 + 10 ** 90 + 1), 3 ** 200, -(7 ** 300), 1 << 1023, (1 << 1024) - (1 << 970), 123456789 * 10 ** 292 + 12345]
+
+
+def check_json_numbers(ctx, d, exe, dasan=None):
+    rng = ctx.rng
+    bits = jnum_doubles(rng, ctx.thorough)
+    exprs, meta = [], []
+    for k in range(0, len(bits), 1000):
+        chunk = bits[k:k + 1000]
+        exprs.append('(jnum-doubles (hx "%s"))' % b"".join(struct.pack("<Q", b) for b in chunk).hex())
+        meta.append([("d", b) for b in chunk])
+    exprs.append("(jnum-list (list %s))" % " ".join(map(str, JNUM_BIG)))
+    meta.append([("b", n) for n in JNUM_BIG])
+    io = scm.run_cases(d, exprs, prelude_extra=PRELUDE + JNUM_PRELUDE, imports=IMPORTS, timeout=600, chunk=4)
+    if dasan is not None:
+        # the fixed text buffer under ASan: the first chunk (the grid of longest texts) and the bignums must give the same answers, no report
+        sel = [0, len(exprs) - 1] if len(exprs) > 1 else [0]
+        ia = scm.run_cases(dasan, [exprs[j] for j in sel], prelude_extra=PRELUDE + JNUM_PRELUDE, imports=IMPORTS, timeout=600, chunk=4)
+        for j, a in zip(sel, ia):
+            ctx.count(len(meta[j]), key=("jnum-asan", j), nontrivial=True)
+            if bad(a) or a != io[j]:
+                ctx.violation("json:number:asan-differs-or-crashes", input=exprs[j][:200], expected=(io[j] or "")[:200], observed=(a or "")[:600], build="asan",
+                              replay="asan build of chibi-scheme with the JNUM_PRELUDE of props/C19.py and " + exprs[j][:300])
+    cases = []
+    for e, mt, i in zip(exprs, meta, io):
+        if bad(i) or i is None or i.startswith("ERR"):
+            ctx.violation("json:number:crash-or-error", input=e[:200], observed=(i or "")[:300], replay="chibi-scheme with the JNUM_PRELUDE of props/C19.py and " + e[:300])
+            continue
+        parts = i.strip('"').split(";")
+        if len(parts) != len(mt):
+            ctx.violation("json:number:crash-or-error", input=e[:200], observed="%d answers for %d values" % (len(parts), len(mt)))
+            continue
+        cases += list(zip(mt, parts))
+    lim = {}
+    def viol(sig, **kw):
+        lim[sig] = lim.get(sig, 0) + 1
+        if lim[sig] <= 5:
+            ctx.violation(sig, **kw)
+    reqs, rcase = [], []
+    for (kind, v), ans in cases:
+        x = Fraction(bitsd(v)) if kind == "d" else Fraction(v)
+        if kind == "d":      # the replay builds the double exactly: significand (exact integer) times a power of two, no decimal literal involved
+            m_, e_ = v & ((1 << 52) - 1), (v >> 52) & 2047
+            m_, e_ = (m_, -1074) if e_ == 0 else (m_ | (1 << 52), e_ - 1075)
+            lit = "(* (inexact %s%d) (expt 2. %d))" % ("-" if v >> 63 else "", m_, e_) if m_ else ("-0.0" if v >> 63 else "0.0")
+        else:
+            lit = str(v)
+        desc = ("double %r (bits %016x)" % (bitsd(v), v)) if kind == "d" else "exact integer %d" % v
+        rp = "echo '(import (scheme base) (scheme write) (chibi json)) (let ((t (json->string %s))) (write t) (write (string->number t)) (write (string->json t)))' | chibi-scheme /dev/stdin" % lit.replace("'", "")
+        ctx.count(1, key=("jnum", kind, v), nontrivial=x != 0)
+        if ans == "WERR":
+            if kind == "b" and abs(x) > DBL_MAX:
+                continue                                    # a bignum beyond the doubles: "unable to encode number" is an answer
+            viol("json:write-number:error-on-finite-number", input=desc, observed="json->string raises", replay=rp)
+            continue
+        f = ans.split(" ")
+        if len(f) != 5:
+            viol("json:number:crash-or-error", input=desc, observed=ans[:200], replay=rp)
+            continue
+        t, sn, jr, left, ja = f
+        T = text_value(t)
+        if T is None:
+            viol("json:write-number:text-not-a-json-number", input=desc, observed=t, replay=rp)
+            continue
+        slack = Fraction(1, 2 ** 52) if kind == "b" else 0
+        tl = t.lower()
+        shape = "%s%d-digits-%s" % ("neg-" if t.startswith("-") else "", min(10, len(tl.split("e")[0].replace("-", "").replace(".", "").lstrip("0")) or 1),
+                                    ("exp%d" % len(tl.split("e")[1].lstrip("+-"))) if "e" in tl else "plain")
+        if not num_accept(x, T, slack):
+            viol("json:write-number:text-denotes-another-value", input=desc, text=t, shape=shape,
+                 expected="the value rounded to 10 significant digits (|text - x| <= half a unit of the 10th digit)", observed="text denotes %s" % (float(T) if abs(T) < DBL_MAX else T), replay=rp)
+            continue
+        if kind == "d" and x != 0:
+            m, ee = v & ((1 << 52) - 1), (v >> 52) & 2047
+            mz, ez = (m, -1074) if ee == 0 else (m | (1 << 52), ee - 1075)
+            if v >> 63: mz = -mz
+            mt = re_dec(t)
+            reqs.append("numok %s %s %s %s %s" % (zh(mz), zh(ez), zh(mt[0]), zh(mt[1]), zh(dec_exponent(x))))
+            rcase.append((desc, t))
+        intlike = "." not in t and "e" not in tl
+        # (c) the two readers
+        if not read_close(sn, T, intlike):
+            ctx.broken("oracle:string->number", "string->number of the writer's text %s gives %s (value to be judged by C08)" % (t, sn))
+        bad_read = None
+        if jr == "E":
+            bad_read = "the JSON reader rejects the text"
+        elif left != "0":
+            bad_read = "the JSON reader stops %s characters before the end of the text (reads %s)" % (left, jr)
+        elif not read_close(jr, T, intlike):
+            bad_read = "the JSON reader reads another number: %s" % jr
+        elif ja != jr + "," + jr:
+            bad_read = "inside an array the same text reads as %s (E: error, or the array was not written as [text,text])" % ja
+        else:
+            a, b2 = tok_float(sn), tok_float(jr)
+            if a is not None and b2 is not None and a != b2 and abs(dbits(abs(a)) - dbits(abs(b2))) > 2 and abs(a - b2) > 8 * 2.0 ** -1074:
+                bad_read = "string->number and the JSON reader differ by more than 2 ulps: %s / %s" % (sn, jr)
+        if bad_read:
+            viol("json:read-own-number:" + ("exponent-form" if "e" in tl else "plain-form"), input=desc, text=t, shape=shape, expected="(string->json text) = the number the text denotes", observed=bad_read, replay=rp)
+    # the extracted Coq predicate on a deterministic subset (3.5 ms per request: 10^324-sized integers in binary Z): every 3rd case quick, at most 30 000 thorough
+    stride = 3 if not ctx.thorough else max(1, len(reqs) // 30000)
+    reqs, rcase = reqs[::stride], rcase[::stride]
+    if reqs:
+        mo = run_model(exe, reqs)
+        for (desc, t), m in zip(rcase, mo):
+            if m != "T":
+                ctx.broken("model:num_accept", "the extracted Json.num_accept answers %s where the Fraction oracle accepts: %s -> %s" % (m, desc, t))
+    # the predicate must also REJECT: every accepted text with its last exponent digit dropped, its sign dropped, its last digit changed (model and oracle agree)
+    rej, rmeta = [], []
+    for (desc, t), rq in list(zip(rcase, reqs))[::5]:
+        f = rq.split(" ")
+        for label, t2 in (("exponent-digit-dropped", t[:-1] if "E" in t and t[-2].isdigit() else None), ("sign-dropped", t[1:] if t.startswith("-") else None),
+                          ("exponent-sign-dropped", t.replace("E-", "E+") if "E-" in t else None)):
+            if t2 is None or text_value(t2) is None:
+                continue
+            mt = re_dec(t2)
+            rej.append("numok %s %s %s %s %s" % (f[1], f[2], zh(mt[0]), zh(mt[1]), f[5]))
+            rmeta.append((desc, t, t2, label))
+    if rej:
+        mo = run_model(exe, rej)
+        for (desc, t, t2, label), m in zip(rmeta, mo):
+            ctx.count(1, key=("jnum-reject", desc, t2), nontrivial=True)
+            if m != "F":
+                ctx.broken("model:num_accept", "the extracted Json.num_accept accepts the damaged text %s (%s of %s) for %s" % (t2, label, t, desc))
+    ctx.sample(dict(kind="json-number", value=cases[5][0][1] if len(cases) > 5 else None, answer=cases[5][1] if len(cases) > 5 else None))
+
+
+def re_dec(t):
+    """text of a JSON number -> (d, k) with value d * 10^k"""
+    import re
+    m = re.match(r"(-?)([0-9]+)(?:\.([0-9]+))?(?:[eE]([+-]?[0-9]+))?\Z", t)
+    sg, ip, fp, ex = m.groups()
+    fp = fp or ""
+    dd = int(ip + fp)
+    return (-dd if sg else dd), int(ex or 0) - len(fp)
 
 
 # ------------------------------------------------------------------------------------------ corpus (run first)
@@ -1672,6 +1969,8 @@ def run(ctx):
                        "mantissas, through the C functions directly AND through f16vector-set!/ref, f8vector-set!/ref and the #f16( ) / #f8( ) reader and writer; CSV: tables over 10 grammars "
                        "with every special character (quote, separators, escape, record separator, CR, LF, CRLF, space) at the start / middle / end of a field, empty fields and rows, "
                        "all texts up to length 4 over {a , quote CR LF} and seeded hostile texts through the reader; "
+                       "JSON numbers: doubles by bit pattern at every boundary of the written text's length and form (sign x 1..17 significant digits x decimal exponents around "
+                       "-324, -308, -100, -5..-4, 0, 9..10, 15..23, 100, 300, 308; ties and carries in the 10th digit; powers of 2 and 10; subnormals; extremes; random patterns) and bignums; "
                        "a case is distinct by (operation, input bytes, offset, value) and non-trivial unless the input is empty")
     from gen import c19_accessors
     table, _others = c19_accessors.regen(ctx)
@@ -1731,6 +2030,10 @@ def run(ctx):
     t3b = time.time()
     if on("json"):
         check_json(ctx, d, exe, dasan)
+    t6 = time.time()
+    if on("jnum"):
+        check_json_numbers(ctx, d, exe, dasan)
+    ctx.note("wall seconds: json numbers %.1f" % (time.time() - t6))
     t5 = time.time()
     ctx.note("wall seconds: base64 %.1f, base64 ports/header %.1f, qp + entry points %.1f, uri + asan build %.1f, accessors (default+asan) %.1f, mini-floats + csv + extra entry points %.1f, json %.1f" % (t1 - t0, t1b - t1, t2 - t1b, t4 - t2, t3 - t4, t3b - t3, t5 - t3b))
     ctx.assume("(chibi csv): csv-grammar, csv-parser, csv-writer, csv-write, csv->list, csv-read->list are modelled (coq/C19/Csv.v, any grammar) and tied; csv-read->vector, "
@@ -1741,7 +2044,10 @@ def run(ctx):
                "test double (harness/embed_c19_half.c calls the real functions), not proved against Flocq; C shift counts >= 32 (undefined behaviour) are modelled as x86 does (count mod 32) "
                "and proved unreachable for the decoder where the term counts; finite doubles beyond the largest half / quarter do not become infinite (observation, see notes/C19.md)")
     ctx.assume("exported entry points NOT modelled (K-outer round trips only, harness/c19_extra.py): (chibi uri) record API, (scheme bytevector) utf16 / utf32 transcoders and list helpers, "
-               "(chibi json) make-json-reader, (chibi mime) header decoding and transfer encodings; the SRFI 160 library above its primitive accessors; JSON floats are compared by class only")
+               "(chibi json) make-json-reader, (chibi mime) header decoding and transfer encodings; the SRFI 160 library above its primitive accessors; inside generated JSON structures floats are compared by class only")
+    ctx.assume("JSON numbers (section jnum): printf's %.10G is NOT modelled; the text json_write_flonum emits for a finite flonum / bignum is judged by the exact-rational predicate Json.num_accept "
+               "(value rounded to 10 significant digits; extracted Coq function on every 3rd case, Python Fractions on all), the JSON grammar, and both readers (string->number as reference, "
+               "tolerance 2^-50 relative / 8 subnormal steps for the naive decimal->binary conversions); flonums round-trip only up to those 10 digits by design of the writer")
     ctx.assume("every exported entry point of (chibi base64) and (chibi quoted-printable) is exercised: bytevector, string, binary-port, textual-port, current-output-port and "
                "*-header variants; (chibi json): string->json, json->string, json-read and json-write on string ports; (scheme bytevector): every accessor the stub defines "
                "(regenerated table) plus the generic uint/sint ones")
